@@ -781,7 +781,10 @@ let judge_stdcmp f =
   let v = if get f "status" <> "ok" then F ("panic in the embedded codec (" ^ get f "what" ^ ")")
     else if get f "same" = "1" then P
     else F ("the embedded codec and encoding/json differ (" ^ get f "what" ^ ": " ^ unhex (get f "in") ^ ")") in
-  out_line id "stdcmp" ["C17", v; "C04", (if get f "status" = "ok" then P else F "panic")] ""
+  let c16 = if get f "what" = "after-refused-decode" then
+      (if get f "same" = "1" then P else F ("a well-formed text is rejected after an earlier decode was refused by a caller's Unmarshaler: " ^ unhex (get f "in")))
+    else S "codec-comparison" in
+  out_line id "stdcmp" ["C17", v; "C16", c16; "C04", (if get f "status" = "ok" then P else F "panic")] ""
 
 (* ---------- cli ---------- *)
 let judge_cli f =
